@@ -1439,14 +1439,16 @@ def _last_or_zero(ctx, hfn):
             while isinstance(pat, dict) and pat.get('k') == 'pref':
                 pat = pat['p']
             th, el = strip(tree[2][1]), strip(tree[3][1])
+            last_el = INDEX(L('lengths'), BIN('Sub', M('len', L('lengths')), K(1)))
             if pat.get('k') == 'pslice' and pat.get('rest') and not pat.get('before') and len(pat.get('after', [])) == 1 \
-                    and pat['after'][0].get('k') == 'bind' and isinstance(th, dict) and th.get('k') == 'local' \
-                    and th.get('name') == pat['after'][0]['name'] and ctx.const_value(el) == 0.0:
+                    and isinstance(th, dict) and ((th.get('k') == 'local' and pat['after'][0].get('k') == 'bind' and
+                                                   th.get('name') == pat['after'][0]['name']) or last_el.m(ctx, th)) \
+                    and ctx.const_value(el) == 0.0:
                 return True, '', None
             if pat.get('k') == 'pslice' and not pat.get('rest') and not pat.get('before') and not pat.get('after') \
                     and ctx.const_value(th) == 0.0:
-                # `[] => 0.0, [.., total] => *total` : the second arm is exhaustive, its binding stays a local
-                if isinstance(el, dict) and el.get('k') == 'local':
+                # `[] => 0.0, [.., total] => *total` : the second arm is exhaustive
+                if isinstance(el, dict) and (el.get('k') == 'local' or INDEX(L('lengths'), BIN('Sub', M('len', L('lengths')), K(1))).m(ctx, el)):
                     return True, '', None
     except SE.Stop:
         pass
